@@ -2,6 +2,7 @@ package simplecue
 
 import (
 	"fmt"
+	"math"
 	"strings"
 
 	"cuelang.org/go/cue"
@@ -847,7 +848,7 @@ func (g *generator) declareNumber(v cue.Value, defVal any, hints ast.JenniesHint
 	// sent on the wrong path.
 
 	// extract constraints
-	constraints, err := g.declareNumberConstraints(v)
+	constraints, err := g.declareNumberConstraints(v, numberType)
 	if err != nil {
 		return ast.Type{}, err
 	}
@@ -858,7 +859,20 @@ func (g *generator) declareNumber(v cue.Value, defVal any, hints ast.JenniesHint
 }
 
 // having written this makes my soul hurt.
-func (g *generator) declareNumberConstraints(v cue.Value) ([]ast.TypeConstraint, error) {
+// boundsOfPredeclaredTypes gives the bounds that CUE's predeclared number types stand for.
+// See https://cuelang.org/docs/tutorials/tour/types/bounddef/
+var boundsOfPredeclaredTypes = map[string][2]int64{
+	"uint":   {0, math.MaxInt64},
+	"uint8":  {0, math.MaxUint8},
+	"uint16": {0, math.MaxUint16},
+	"uint32": {0, math.MaxUint32},
+	"uint64": {0, math.MaxInt64},
+	"int8":   {math.MinInt8, math.MaxInt8},
+	"int16":  {math.MinInt16, math.MaxInt16},
+	"int32":  {math.MinInt32, math.MaxInt32},
+}
+
+func (g *generator) declareNumberConstraints(v cue.Value, numberType ast.ScalarKind) ([]ast.TypeConstraint, error) {
 	// if the number has a default value, strip it from `v` before trying to extract constraints.
 	_, hasDefault := v.Default()
 	if hasDefault {
@@ -920,6 +934,17 @@ func (g *generator) declareNumberConstraints(v cue.Value) ([]ast.TypeConstraint,
 
 	var constraints []ast.TypeConstraint
 	for _, part := range parts {
+		// CUE prints `int & >=0` as `uint`, `int & >=0 & <=255` as `uint8`, …: when that is not
+		// the type that was inferred (`int & >=0 | *5` is an int64), the bounds have to be kept.
+		bounds, isPredeclared := boundsOfPredeclaredTypes[strings.TrimSpace(part)]
+		if isPredeclared && numberType == ast.KindInt64 {
+			constraints = append(constraints, ast.TypeConstraint{Op: ast.GreaterThanEqualOp, Args: []any{bounds[0]}})
+			if bounds[1] != math.MaxInt64 {
+				constraints = append(constraints, ast.TypeConstraint{Op: ast.LessThanEqualOp, Args: []any{bounds[1]}})
+			}
+			continue
+		}
+
 		// bounds (`>=1`, `<10`) and exclusions (`!=0`); the other parts are types
 		if part[0] != '<' && part[0] != '>' && part[0] != '!' {
 			continue
